@@ -20,6 +20,36 @@ CLAIMS = {
   "text": "The peer's A-ASSOCIATE-RQ is decoded by the real PDU code and the real acceptor branch of Association.run_reactor / ACSE._negotiate_as_acceptor / _check_user_identity runs in the harness thread. For every calling/called title with 2 (quick) / 3 (thorough) arbitrary leading bytes, six required-calling lists, called-title check on/off, 7 identity-handler outcomes x identity types, and the association limit, the association is established iff all enabled checks pass, otherwise exactly one A-ASSOCIATE-RJ with the documented (result, source, reason) is sent and no DIMSE handler runs: 'Confirmed over all paths'.",
   "note": "Trusted: CrossHair models, z3, the oracle in harness/C13.py (own space-only strip, documented reject codes). Stubs: FakeDUL, scripted DIMSE with one C-ECHO, threading.enumerate list, time.sleep no-op, unicodedata ASCII stand-in. Outside: titles with more symbolic bytes than the bound, other identity payloads, threads of other AEs.",
  },
+ "C10": {
+  "technique": T + "role flags and acceptor settings are solver-symbolic booleans, context ids solver-symbolic ints, abstract/transfer syntaxes indices into small pools enumerated by the search tree; oracle = row-by-row transcription of the documented role table plus PS3.7 D.3.3.4 as a formula",
+  "text": "Real negotiate_as_acceptor / negotiate_unrestricted / ACSE._negotiate_as_acceptor+send_accept: for every role proposal x acceptor role setting (72 cases), every non-empty proposed/supported subset of 3 transfer syntaxes in both orders (392 cases), 0..3 proposed contexts with any distinct odd ids and repeated abstract syntaxes, and the unrestricted-storage mode over a pool of 5 SOP classes, the result list has exactly one result per proposed id with the proposed abstract syntax, result/reason and transfer syntax follow PS3.8, roles follow the documented table and the D.3.3.4 formula: 'Confirmed over all paths' per obligation. Four listed known findings in unrestricted mode (pinned by existing tests) are excluded by precondition and reported.",
+  "note": "Trusted: CrossHair, z3, spec/ps37_roles.py (own transcription of docs/user/presentation_role_selection.rst and PS3.7 D.3.3.4 / PS3.8 result codes). Outside: more than 3 proposed contexts (so not the 128 limit), pools larger than 3/5 UIDs, duplicate context ids, result order.",
+ },
+ "C11": {
+  "technique": T + "two real Associations joined by a loopback that runs the real A-ASSOCIATE-RQ/AC encode/decode; role proposals and acceptor role settings are solver variables",
+  "text": "Real ACSE._negotiate_as_requestor/send_request/negotiate_as_requestor on one side and run_reactor/_negotiate_as_acceptor/send_accept/negotiate_as_acceptor on the other, with the real RQ/AC codec in between: for <= 2 requested and <= 2 supported contexts, every encodable role proposal and acceptor setting in {None,True,False}^2, normal and unrestricted mode, every requested id appears exactly once on the requestor side, accepted ids / abstract / transfer syntaxes agree and rq.as_scu == ac.as_scp, rq.as_scp == ac.as_scu: 'Confirmed over all paths'. One listed known finding (unrestricted default roles) excluded and reported.",
+  "note": "Trusted: CrossHair, z3, vlib/stubs/loopback.py (no protocol logic; FSM/TCP not in the loop - they are C03-C05). Outside: more than 2 contexts per side, (0,0) role proposals (the encoder raises, documented).",
+ },
+ "C14": {
+  "technique": T + "inductive step: the pre-state (which live acceptor threads have passed the limit check) is a symbolic List[bool], the limit a symbolic int; one real _negotiate_as_acceptor step is executed and the invariant asserted",
+  "text": "Inductive-step claim: from any pre-state with x <= 3 (quick) / 6 (thorough) other live acceptor associations (any subset past the limit check), r requestor threads, o threads of another AE and any limit in [-2, N+2] set through the real setter, running the real ACSE._negotiate_as_acceptor limit branch with AE.active_associations keeps 'threads past the check <= maximum_associations', and a request over the limit gets exactly one reject (2,3,2): 'Confirmed over all paths'.",
+  "note": "Assumption: a thread is in threading.enumerate() from start() until run() returns and the check runs on the thread it counts (threading.enumerate is stubbed by a list). The real thread scheduler is outside the claim; the schedule quantifier is discharged by induction, not explored.",
+ },
+ "C15": {
+  "technique": T + "command-set / data-set lengths up to 2^40 and maximum lengths 0, 7..2^32-1 are solver-symbolic integers over exact integer stand-ins (Num/Frac/Seg, case-split ceil); a second harness uses symbolic byte contents; the float ceil step is a separate z3 (and cvc5) lemma",
+  "text": "Real DIMSEMessage.encode_msg (absent / in-memory / file-backed data set), _generate_pdv_fragments, P_DATA_TF.from_primitive/pdu_length, decode_msg and DIMSEServiceProvider.send_msg/maximum_pdu_size: for every c in [1,2^40], n in [0,2^40], m in {0} U [7,2^32-1] with <= 4 (quick) / 8 (thorough) fragments per part, every P-DATA-TF carries one PDV whose length <= m, fragments are contiguous, non-empty, ordered command-before-data with only the last of each part marked, and decode_msg reassembles exactly the input ranges and completes exactly at the last fragment; with real symbolic bytes (<= 4/5 per part, m in {0,7..12}) under every regrouping into PDUs the reassembled bytes equal the input: 'Confirmed over all paths'. Lemma L-ceil (Python ceil(a/b) on floats equals the integer ceiling for a <= 2^40, b < 2^32) is discharged by z3 (quick) and z3+cvc5 (thorough).",
+  "note": "Trusted: CrossHair, z3, vlib/stubs/num.py (exact integer/rational stand-ins; dimse_messages.len/ceil/open/encode/decode patched), the IEEE-754 relative-error model used by the lemma. Outside: more than K fragments per part, STORE_RECV_CHUNKED_DATASET receive mode, peer maxima 1..6.",
+ },
+ "C16": {
+  "technique": T + "data-set buffers are symbolic bytes (0..2/4 bytes), message type / API method / dataset kind enumerated by the search tree; two real Associations joined by a loopback through the real P-DATA-TF codec",
+  "text": "For all 23 DIMSE messages with absent / any 0..2 (quick) 0..4 (thorough) byte / file-backed data-set parameter, for the 12 public send_* methods with None / empty Dataset / one-element Dataset, and for the C-FIND, N-GET, N-SET, N-CREATE, N-ACTION, N-EVENT-REPORT SCP responses with empty / one-element datasets: the command set announces a data set (as read by the independent parser in spec/ps37_dimse.py) iff at least one data-set PDV was sent, and the peer's real receive_primitive completes exactly one message: 'Confirmed over all paths'.",
+  "note": "Trusted: CrossHair, z3, vlib/stubs/wire16.py loopback (no FSM/TCP), spec/ps37_dimse.py. Outside: timing, C-GET/C-MOVE/C-STORE SCP responses, handlers that raise.",
+ },
+ "C17": {
+  "technique": T + "presence of every optional parameter is a solver-symbolic boolean; values come from boundary pools because pydicom's writer realises values",
+  "text": "primitive -> primitive_to_message -> encode_msg (max 70) -> decode_msg -> message_to_primitive for all 23 message types: starting from all-present / all-absent with one parameter flipped at a time (quick) and every subset of parameters up to 2^9 (thorough), values from pools of 3 boundary values: the wire command set has the PS3.7 Table E.1-1 command field, correct group length, only keywords PS3.7 gives that message, and the round trip preserves type, direction, every present parameter (absent stays absent), data-set bytes and context id: 'Confirmed over all paths'. Value space reduced to pools (stated).",
+  "note": "Trusted: CrossHair, z3, spec/ps37_dimse.py (own transcription of PS3.7 E.1-1 and the 9.1/9.3/10.1/10.3 parameter tables), pydicom's command-set codec. Outside: values outside the pools, empty data-set buffers (C16), out-of-range values the setters accept.",
+ },
 }
 NOT_APPLICABLE = {
  "C25": "The dataset path is pydicom's codec, zlib and file I/O: CrossHair realises every value at those C boundaries, so the solver would quantify over nothing; the pynetdicom-owned part (fragmentation / reassembly, CommandDataSetType consistency) is decided under C15 and C16.",
